@@ -217,6 +217,9 @@ def kw(call: ast.Call, name: str) -> ast.expr | None:
     by = getattr(call, "_by_field", None)
     if by is not None:
         return by.get(name)
+    by = getattr(call, "_by_param", None)
+    if by is not None:
+        return by.get(name)
     return None
 
 
